@@ -769,3 +769,19 @@ Proof. vm_compute. reflexivity. Qed.
 
 Theorem integer_types_scaled t s w : In (t, (s, w)) cia301_int_types -> zmem t INTEGER_TYPES = true.
 Proof. intros H. pose proof integer_types_b as T. rewrite forallb_forall in T. exact (T _ H). Qed.
+
+(* ------------------------------------------------------------------ read(fmt) / write(value, fmt) *)
+(* the method route is the attribute route: same observation, same store afterwards *)
+Theorem rw_agrees od c :
+  (forall v, step_op od c (OWrite FMT_RAW (OSetRaw v)) = step_op od c (OSetRaw v)) /\
+  (forall n d, step_op od c (OWrite FMT_PHYS (OSetPhys n d)) = step_op od c (OSetPhys n d)) /\
+  (forall d, step_op od c (OWrite FMT_DESC (OSetDesc d)) = step_op od c (OSetDesc d)) /\
+  step_op od c (ORead FMT_RAW) = step_op od c OGetRaw /\
+  step_op od c (ORead FMT_PHYS) = step_op od c OGetPhys /\
+  step_op od c (ORead FMT_DESC) = step_op od c OGetDesc /\
+  (forall fmt o, rw_route fmt = 0 -> step_op od c (OWrite fmt o) = (VNone, c) /\ step_op od c (ORead fmt) = (VNone, c)).
+Proof.
+  repeat split; intros; try reflexivity.
+  - cbn [step_op]. now rewrite H.
+  - cbn [step_op]. now rewrite H.
+Qed.
